@@ -745,6 +745,156 @@ fn requests_for(fi: &FontInfo, tier: Tier) -> Vec<Planned> {
 }
 
 // ---------------------------------------------------------------------------------------------
+// the "loca format boundary" family
+// ---------------------------------------------------------------------------------------------
+//
+// klippa chooses short loca iff the subset's padded glyf size is < 0x1FFFF, and short loca stores
+// offset / 2 in 16 bits, so two sizes are boundaries of the glyf writer: 64 KiB (a 16-bit byte counter
+// wraps) and 128 KiB (short/long decision; padded vs unpadded totals differ by one byte per odd glyph).
+// For every font whose glyf data exceeds a boundary T, the requests "glyph ids 0..=j" are run for every
+// j within ±4 of the prefix length at which the subset's padded total P(j) — and, where it is known, its
+// unpadded total U(j) — first reaches T; every kept glyph is compared by the normal oracle.
+//
+// Placement only (never part of the verdict): the per-glyph trimmed lengths under a flag set come from
+// the loca of one real "everything + RETAIN_GIDS" subset under the same flags (lengths are read per
+// original glyph id; a long loca gives unpadded lengths, a short one only padded lengths, so U is
+// available only for fonts above 128 KiB). The kept set of a prefix is the harness' own component
+// closure. If the placement subset cannot be produced or read the family is skipped for that font and
+// the fact is written to the evidence.
+
+const LOCA_BOUNDARIES: [u32; 2] = [0x1_0000, 0x1_FFFF];
+
+struct Placement {
+    row: Value,
+    planned: Vec<Planned>,
+}
+
+fn loca_boundary_family(fi: &FontInfo, tier: Tier) -> Option<Placement> {
+    let font = fi.font();
+    let glyf_len = font
+        .table_directory
+        .table_records()
+        .iter()
+        .find(|r| r.tag() == Tag::new(b"glyf"))
+        .map(|r| r.length())
+        .unwrap_or(0);
+    if glyf_len < LOCA_BOUNDARIES[0] || fi.huge_cmap {
+        return None;
+    }
+    // flag sets of this family: the ones that change glyph sizes or numbering (restricted for cost:
+    // each case keeps ~500-1200 glyphs and compares every one of them)
+    let flag_sets: Vec<u16> = tier.pick(
+        vec![0, F_RETAIN_GIDS, F_NO_HINTING],
+        vec![
+            0,
+            F_RETAIN_GIDS,
+            F_NO_HINTING,
+            F_NOTDEF_OUTLINE,
+            F_RETAIN_GIDS | F_NO_HINTING,
+            F_RETAIN_GIDS | F_NOTDEF_OUTLINE,
+            F_NO_HINTING | F_NOTDEF_OUTLINE,
+            0x00D3,
+        ],
+    );
+    let all_gids: Vec<u32> = (0..fi.num_glyphs).collect();
+    // prefix j keeps closure(0..=j); `first_needed[g]` = smallest j whose closure contains g
+    let mut first_needed = vec![u32::MAX; fi.num_glyphs as usize];
+    {
+        let mut kept: BTreeSet<u32> = BTreeSet::new();
+        for j in 0..fi.num_glyphs {
+            let mut add = BTreeSet::new();
+            fi.closure(j, &mut add);
+            for g in add {
+                if kept.insert(g) {
+                    first_needed[g as usize] = j;
+                }
+            }
+        }
+    }
+    let mut rows = vec![];
+    let mut by_prefix: BTreeMap<u32, Vec<u16>> = BTreeMap::new();
+    for f in &flag_sets {
+        // placement subset: everything, ids retained, same size-relevant flags
+        let pf = *f | F_RETAIN_GIDS;
+        let lens: Option<(Vec<u32>, bool)> = (|| {
+            let out = run_subset(&font, &all_gids, &[], pf).ok()?.ok()?;
+            let sub = FontRef::new(&out).ok()?;
+            let loca = sub.loca(None).ok()?;
+            if loca.len() < fi.num_glyphs as usize {
+                return None;
+            }
+            let long = matches!(loca, skrifa::raw::tables::loca::Loca::Long(_));
+            let mut v = Vec::with_capacity(fi.num_glyphs as usize);
+            for g in 0..fi.num_glyphs as usize {
+                let a = loca.get_raw(g)?;
+                let b = loca.get_raw(g + 1)?;
+                v.push(b.checked_sub(a)?);
+            }
+            Some((v, long))
+        })();
+        let Some((lens, long)) = lens else {
+            rows.push(json!({"flags": flag_names(*f), "placement": "placement subset could not be produced or read; family skipped"}));
+            continue;
+        };
+        // sums per prefix (accumulated in order of first need)
+        let n = fi.num_glyphs as usize;
+        let mut add_p = vec![0u64; n];
+        let mut add_u = vec![0u64; n];
+        for g in 0..n {
+            let j = first_needed[g] as usize;
+            if j < n {
+                add_u[j] += lens[g] as u64;
+                add_p[j] += (lens[g] + lens[g] % 2) as u64;
+            }
+        }
+        let mut crossings = vec![];
+        for t in LOCA_BOUNDARIES {
+            let mut p = 0u64;
+            let mut u = 0u64;
+            let mut kp = None;
+            let mut ku = None;
+            for j in 0..n {
+                p += add_p[j];
+                u += add_u[j];
+                if kp.is_none() && p >= t as u64 {
+                    kp = Some(j as u32);
+                }
+                // unpadded lengths are only known from a long loca
+                if long && ku.is_none() && u >= t as u64 {
+                    ku = Some(j as u32);
+                }
+            }
+            for k in [kp, ku].into_iter().flatten() {
+                for j in k.saturating_sub(4)..=(k + 4).min(fi.num_glyphs - 1) {
+                    let e = by_prefix.entry(j).or_default();
+                    if !e.contains(f) {
+                        e.push(*f);
+                    }
+                }
+            }
+            crossings.push(json!({"boundary": format!("{t:#x}"), "first_prefix_padded_total_reaches": kp, "first_prefix_unpadded_total_reaches": ku}));
+        }
+        rows.push(json!({"flags": flag_names(*f), "lengths_from": if long { "long loca (unpadded)" } else { "short loca (padded only)" }, "crossings": crossings}));
+    }
+    let planned: Vec<Planned> = by_prefix
+        .into_iter()
+        .map(|(j, flags)| Planned {
+            req: Request {
+                gids: (0..=j).collect(),
+                unicodes: vec![],
+            },
+            flags,
+            resubset: tier == Tier::Thorough,
+        })
+        .collect();
+    Some(Placement {
+        row: json!({"font": fi.name, "glyf_bytes": glyf_len, "prefix_requests": planned.len(),
+            "cases": planned.iter().map(|p| p.flags.len()).sum::<usize>(), "per_flag_set": rows}),
+        planned,
+    })
+}
+
+// ---------------------------------------------------------------------------------------------
 // running the subsetter
 // ---------------------------------------------------------------------------------------------
 
@@ -1404,6 +1554,30 @@ fn body(run: &Run, replay: Option<&Value>) {
             }
         }
     }
+    // the loca format boundary family (placement runs the real subsetter once per font and flag set)
+    let placements: Vec<(usize, Placement)> = fonts
+        .par_iter()
+        .enumerate()
+        .filter_map(|(i, fi)| loca_boundary_family(fi, tier).map(|p| (i, p)))
+        .collect();
+    let mut boundary_rows = vec![];
+    let mut boundary_cases = 0u64;
+    for (i, p) in placements {
+        boundary_rows.push(p.row);
+        for pl in p.planned {
+            for f in &pl.flags {
+                tasks.push((i, pl.req.clone(), *f, pl.resubset));
+                boundary_cases += 1;
+            }
+        }
+    }
+    run.extra("loca_format_boundary_family", json!(boundary_rows));
+    run.count("loca_boundary_cases", boundary_cases);
+    run.bound("loca_format_boundary_family", json!(format!(
+        "fonts with glyf data ≥ 0x10000 bytes: requests 'glyph ids 0..=j' for j within ±4 of the first prefix whose padded (and, above 128 KiB, unpadded) subset glyf total reaches 0x10000 / 0x1FFFF; flag sets {}; {}",
+        tier.pick("{DEFAULT, RETAIN_GIDS, NO_HINTING}", "all 8 combinations' worth: {DEFAULT, RETAIN_GIDS, NO_HINTING, NOTDEF_OUTLINE, their pairs, all five}"),
+        tier.pick("not subset again (cost)", "each subset again")
+    )));
     run.extra("fonts", json!(font_rows));
     run.count("fonts", fonts.len() as u64);
     run.count("fonts_variable", fonts.iter().filter(|f| f.axes > 0).count() as u64);
